@@ -179,7 +179,8 @@ class Paths:
             events = self._events(fn, path)
             is_partial = tuple(path) in partial
             for st, ret in self._expand(fn, events, depth):
-                sm = Summ(_dedup(st.facts), st.effects, None if is_partial else ret, tuple(path))
+                facts, effects, ret = _slice_patterns(_dedup(st.facts), st.effects, ret)
+                sm = Summ(facts, effects, None if is_partial else ret, tuple(path))
                 sm.partial = is_partial
                 out.append(sm)
                 if len(out) > self.limit:
@@ -811,6 +812,45 @@ def ptr_root(t):
     return t
 
 
+FIRST = "core::slice::<impl [T]>::first"
+
+
+def _slice_patterns(facts, effects, ret):
+    """slice patterns `[first, ..]` spelled as the `first()` they stand for: `1 <= len(s)` is `s.first() is Some`,
+    `s[0]` under that condition is its payload"""
+    slices = {}
+    for f in facts:
+        if f[0] in ("le", "lt", "eq", "ne"):
+            for a, b, flip in ((f[1], f[2], False), (f[2], f[1], True)):
+                if b[0] == "un" and b[1] == "PtrMetadata" and a[0] == "const" and isinstance(a[1], int):
+                    # relation between the constant a and len(s)
+                    rel = f[0]
+                    c = a[1]
+                    some_ = None
+                    if not flip:       # c REL len
+                        some_ = True if (rel == "le" and c == 1) or (rel == "lt" and c == 0) else (False if rel == "eq" and c == 0 else (True if rel == "ne" and c == 0 else None))
+                    else:              # len REL c
+                        some_ = False if (rel == "lt" and c == 1) or (rel == "le" and c == 0) or (rel == "eq" and c == 0) else (True if rel == "ne" and c == 0 else None)
+                    if some_ is not None:
+                        slices[b[2]] = (f, some_)
+    if not slices:
+        return facts, effects, ret
+
+    def r(n):
+        if n[0] == "index" and n[1] in slices and slices[n[1]][1] and n[2] == ("const", 0):
+            return ("payload", ("call", FIRST, (), (n[1],)))
+        return None
+    nf = []
+    for f in facts:
+        hit = [s_ for s_, (g, some_) in slices.items() if g is f]
+        if hit:
+            nf.append(("variant", ("call", FIRST, (), (hit[0],)), ("Some",) if slices[hit[0]][1] else ("None",)))
+        else:
+            nf.append(tuple(subst(x, r) if _is_tree(x) else x for x in f))
+    ne = [tuple(subst(x, r) if _is_tree(x) else x for x in e) for e in effects]
+    return nf, ne, subst(ret, r) if ret is not None else None
+
+
 def _refine(ret, facts):
     """a returned Option/Result value whose variant the path has established is written as that variant:
     `let v = load(); if v.is_some() {…}; v` returns Some(payload v) on the path where v is Some"""
@@ -972,6 +1012,10 @@ def _norm_calls(t):
             if len(n) == 5 and p.split("::")[-1] in PURE_MUT:
                 n = n[:4]
                 return n
+            if len(n) == 5 and n[3] and any(x[0] == "update" for x in walk(n[3][0])):
+                # a call on `&mut object`: the receiver is the object, not the history of its fields
+                a0 = subst(n[3][0], lambda m: m[1] if m[0] == "update" else None)
+                return n[:3] + ((a0,) + tuple(n[3][1:]),) + n[4:]
             op = _prim_op(p)
             if op is not None:
                 if op in ("Not", "Neg") and len(n[3]) == 1:
